@@ -189,5 +189,8 @@ pub fn run(p: &Params) -> Run {
     run.notes.push("statements (select, DISTINCT, INNER/OUTER JOIN with fan-out, aggregates) generated without LIMIT; each run without LIMIT and with LIMIT n for n in 0..rows+2 over 0-11 lines split into 1-4 files (empty files, NULL-only rows, noise lines, every 23rd case an invalid UTF-8 line); oracle on the implementation: records(LIMIT n) = first n records(no LIMIT), total_lines <= line of the n-th row (per-line emission from the engine-level unlimited run), aggregates read everything".to_owned());
     // the end-to-end stream: the same property seen from raw texts and raw file bytes (`e2e.rs`, Lean `Pipeline.runText`)
     crate::e2e::stream(&mut run, &mut Rng::new(p.seed ^ 0xe2e07), p.n(250, 3000), "limit");
+    // follow mode: the real FollowFileExecutor stops at the line of the n-th row without coming back for more input
+    crate::c11x::follow_limit_stream(&mut run, &mut Rng::new(p.seed ^ 0xf07), p.n(120, 3000));
+    run.notes.push("follow-limit stream: FollowFileExecutor (--follow --head) with LIMIT n over a file ending at the line of the n-th row: output = first n rows, the retry hook is never asked".to_owned());
     run
 }
